@@ -14,6 +14,8 @@ type frameJ struct {
 	Len   int  `json:"len"`
 	Salt  int  `json:"salt"`
 	FillV *int `json:"fillv"`
+	// optional: the application flips EnablePictureID before this frame (exported field)
+	PidOn *bool `json:"pidon"`
 }
 
 // frameBytes builds the frame: the pattern, or a constant byte when fillv >= 0.
@@ -76,13 +78,16 @@ func runC11(raw json.RawMessage, w *Writer) {
 		codecs.VerifSetVP8PictureID(p, uint16(c.StartID))
 		for k, fr := range c.Frames {
 			frame, fv := frameBytes(fr)
+			if fr.PidOn != nil {
+				p.EnablePictureID = *fr.PidOn
+			}
 			var frags [][]byte
 			r, _ := guard(func() { frags = p.Payload(uint16(c.Mtu), cloneBytes(frame)) })
 			decs := []Ev{}
 			for _, f := range frags {
 				decs = append(decs, vp8Decode(f))
 			}
-			w.Emit(Ev{"ev": "payload", "k": k, "mtu": c.Mtu, "pidon": c.PidOn, "startid": c.StartID, "len": fr.Len, "salt": fr.Salt, "fillv": fv,
+			w.Emit(Ev{"ev": "payload", "k": k, "mtu": c.Mtu, "pidon": p.EnablePictureID, "startid": c.StartID, "len": fr.Len, "salt": fr.Salt, "fillv": fv,
 				"res": r, "frags": intss(frags), "decoded": decs})
 		}
 	}
